@@ -571,7 +571,7 @@ class Explorer:
         self.on_term = on_term
         self.on_edge = on_edge
         self.budget = budget
-        self.init_store = tuple(sorted(init_store))
+        self.init_store = tuple(sorted(init_store, key=lambda kv: str(kv[0])))
         self.parent = {}
         self.exhausted = False
 
@@ -581,8 +581,19 @@ class Explorer:
             return op.get("v")
         if k in ("copy", "move"):
             p = op["p"]
-            if not p.get("p"):
+            pr = p.get("p")
+            if not pr:
                 return store.get(p["l"])
+            if len(pr) == 1 and isinstance(pr[0], dict) and "f" in pr[0]:
+                base = store.get(p["l"])
+                if isinstance(base, tuple) and base and base[0] == "T":
+                    i = pr[0]["i"]
+                    if i < len(base[1]):
+                        return base[1][i]
+                if p["l"] == 1:
+                    return store.get(("u", pr[0]["i"]))
+            if len(pr) == 2 and pr[0] == "*" and isinstance(pr[1], dict) and "f" in pr[1] and p["l"] == 1:
+                return store.get(("u", pr[1]["i"]))
         return None
 
     def _transfer_stmt(self, s, store):
@@ -608,6 +619,10 @@ class Explorer:
                 op = rv["op"]
                 val = {"Eq": int(a == b), "Ne": int(a != b), "Lt": int(a < b), "Le": int(a <= b),
                        "Gt": int(a > b), "Ge": int(a >= b), "BitAnd": a & b, "BitOr": a | b}.get(op)
+        elif rv["k"] == "Aggregate" and rv["agg"]["a"] == "Tuple" and rv["ops"]:
+            vs = [self._const_of(o, store) for o in rv["ops"]]
+            if all(v is not None and not isinstance(v, tuple) for v in vs):
+                val = ("T", tuple(vs))
         elif rv["k"] == "Aggregate" and rv["agg"]["a"] == "Adt" and not rv["ops"]:
             # fieldless enum variant constant: remember as ('V', adt, variant index)
             val = ("V", rv["agg"]["adt"], rv["agg"]["vi"])
@@ -641,21 +656,41 @@ class Explorer:
             bb, store_t, auto = st
             store = dict(store_t)
             blk = body.blocks[bb]
-            dead = False
+            autos = [auto]
             for i, s in enumerate(blk["stmts"]):
                 self._transfer_stmt(s, store)
                 if self.on_stmt:
-                    auto = self.on_stmt(bb, i, s, auto)
-                    if auto is STOP:
-                        dead = True
+                    self.cur_store = store
+                    nxt = []
+                    for a in autos:
+                        r = self.on_stmt(bb, i, s, a)
+                        if r is STOP:
+                            continue
+                        if isinstance(r, Multi):
+                            nxt.extend(r.items)
+                        else:
+                            nxt.append(r)
+                    autos = nxt
+                    if not autos:
                         break
-            if dead:
+            if not autos:
                 continue
             t = blk["term"]
             if self.on_term:
-                auto = self.on_term(bb, t, auto, store)
-                if auto is STOP:
+                self.cur_store = store
+                nxt = []
+                for a in autos:
+                    r = self.on_term(bb, t, a, store)
+                    if r is STOP:
+                        continue
+                    if isinstance(r, Multi):
+                        nxt.extend(r.items)
+                    else:
+                        nxt.append(r)
+                autos = nxt
+                if not autos:
                     continue
+            autos = list(dict.fromkeys(autos))
             k = t["k"]
             succs = body.succ[bb]
             if k == "SwitchInt":
@@ -671,19 +706,22 @@ class Explorer:
                 if not d.get("p"):
                     store.pop(d["l"], None)
             if k in ("Return", "Unreachable", "UnwindResume", "CoroutineDrop") or not succs:
-                finals.append((st, auto, k))
+                for auto in autos:
+                    finals.append((st, auto, k))
                 continue
-            for s in dict.fromkeys(succs):
-                a2 = auto
-                if self.on_edge:
-                    a2 = self.on_edge(bb, s, auto, store)
-                    if a2 is STOP:
-                        continue
-                ns = (s, tuple(sorted(store.items(), key=lambda kv: kv[0])), a2)
-                if ns not in seen:
-                    seen.add(ns)
-                    self.parent[ns] = st
-                    wl.append(ns)
+            store_t2 = tuple(sorted(store.items(), key=lambda kv: str(kv[0])))
+            for auto in autos:
+                for s in dict.fromkeys(succs):
+                    a2 = auto
+                    if self.on_edge:
+                        a2 = self.on_edge(bb, s, auto, store)
+                        if a2 is STOP:
+                            continue
+                    ns = (s, store_t2, a2)
+                    if ns not in seen:
+                        seen.add(ns)
+                        self.parent[ns] = st
+                        wl.append(ns)
         self.seen = seen
         self.finals = finals
         return finals
@@ -704,6 +742,13 @@ class Explorer:
 
 class _Stop:
     pass
+
+
+class Multi:
+    """on_term may return Multi([...]) to fork the automaton state."""
+
+    def __init__(self, items):
+        self.items = list(items)
 
 
 STOP = _Stop()
@@ -774,9 +819,11 @@ class Inter:
     """Expand closure upvars and function parameters to the expressions bound at the creation / call
     sites inside the workspace (P4: closure upvars + callee parameters, depth-bounded)."""
 
-    def __init__(self, facts, maxdepth=6):
+    def __init__(self, facts, maxdepth=6, scope=None, root=None):
         self.facts = facts
         self.maxdepth = maxdepth
+        self.scope = scope      # optional set of body dps whose call sites may bind parameters
+        self.root = root        # optional body dp at which upvar expansion stops
         self.tracers = {}
         self.index = None
         self._creation = {}
@@ -832,7 +879,7 @@ class Inter:
             b2 = base
             while b2.kind in ("deref", "ref"):
                 b2 = b2[1]
-            if b2.kind == "param" and b2[1] == 1 and body.kind == "Closure" and n[2].isdigit():
+            if b2.kind == "param" and b2[1] == 1 and body.kind == "Closure" and n[2].isdigit() and body.dp != self.root:
                 cs = self.creation_site(body)
                 if cs is not None:
                     parent, ops = cs
@@ -845,6 +892,8 @@ class Inter:
             if body.kind in ("Fn", "AssocFn") and depth < self.maxdepth:
                 sites = self.call_index().callers.get(body.dp, [])
                 outs = []
+                if self.scope is not None:
+                    sites = [x for x in sites if x[0].dp in self.scope]
                 for (cb, bi, t) in sites[:8]:
                     i = n[1] - 1
                     if i < len(t["args"]):
